@@ -655,6 +655,16 @@ func runL0(seed int64, n int, dir string) error {
 		fmt.Fprintf(iw, "%d %s\n", id, probeStoredPlaintextUnderPutFault(nth))
 		stats["probe_stored_plaintext_put_fault"]++
 	}
+	id++
+	fmt.Fprintf(cw, "%d probe tombstone-before-1970-hides-the-key\n", id)
+	fmt.Fprintf(iw, "%d %s\n", id, probeTombstoneBefore1970())
+	stats["probe_tombstone_before_1970"]++
+	for k := 0; k < 3; k++ {
+		id++
+		fmt.Fprintf(cw, "%d probe historic-open-while-the-version-is-retired\n", id)
+		fmt.Fprintf(iw, "%d %s\n", id, probeHistoricOpenDuringRetire())
+		stats["probe_historic_open_during_retire"]++
+	}
 	for _, setBF := range []bool{false, true} {
 		id++
 		fmt.Fprintf(cw, "%d probe reopening-a-quiescent-table-with-force-rebranch %v\n", id, setBF)
